@@ -111,4 +111,11 @@ Section Modes.
                  (map (map (fun v => v * snd jc)) (zernike_noll (Z.of_nat (S (fst jc))) N rot)))
       (combine (seq 0 (length coeffs)) coeffs)
       (repeat (repeat (nzero O) N) N).
+  (* zernikeArray(J, N, norm, rot): J a count (modes 1..J) or a list of Noll indices; then the normalisation *)
+  Definition apply_norm (norm : nat) (N : nat) (z : list (list T)) : list (list T) :=
+    match norm with 0%nat => z | 1%nat => norm_p2v z | _ => norm_rms N z end.       (* 0 noll, 1 p2v, 2 rms *)
+  Definition zernike_array_list (js : list Z) (N : nat) (norm : nat) (rot : T) : list (list (list T)) :=
+    map (fun j => apply_norm norm N (zernike_noll j N rot)) js.
+  Definition zernike_array_count (J : nat) (N : nat) (norm : nat) (rot : T) : list (list (list T)) :=
+    zernike_array_list (map (fun k => Z.of_nat (S k)) (seq 0 J)) N norm rot.
 End Modes.
